@@ -218,10 +218,127 @@ def store_gate(ctx):
     return out
 
 
+def enum_variants(name, rel):
+    """variant names of a repository enum, in declaration order (read from the current source)"""
+    import os
+    from ..dump import REPO
+    try:
+        txt = open(os.path.join(REPO, "src", rel)).read()
+    except OSError:
+        return None
+    m = re.search(rf"\benum\s+{name}\s*\{{(.*?)\n\}}", txt, re.S)
+    if not m:
+        return None
+    body = re.sub(r"//[^\n]*", "", m.group(1))
+    body = re.sub(r"#\[[^\]]*\]", "", body)
+    prev = None
+    while prev != body:                       # drop variant payloads, innermost first
+        prev = body
+        body = re.sub(r"\([^()]*\)|\{[^{}]*\}", "", body)
+    names = [x.strip().split("=")[0].strip() for x in body.split(",")]
+    names = [n for n in names if re.match(r"^[A-Z]\w*$", n)]
+    return names
+
+
+def time_normalisation(ctx):
+    b = Builder(ctx, "schema-normalization-{impl#0}-normalize.", "PayloadTimeNormalizer::normalize", {})
+    E, q = b.E, ctx.q
+    r = b.mk("B-5", "PayloadTimeNormalizer::normalize hands every present, non-null value of a time-typed field (datetime, date, "
+                    "and their nullable forms) to TimeParser::normalize_json_value with the matching kind, and propagates "
+                    "its error with `?` (an unparseable time rejects the STORE)")
+    out = [b.results["B-5"]]
+    if not r:
+        return out
+    variants = enum_variants("FieldType", "engine/schema/types.rs")
+    if not variants or not {"Timestamp", "Date", "Optional"} <= set(variants):
+        r.status = "inconclusive"
+        r.notes.append("FieldType variants not found in the source")
+        return out
+    TS, DT, OPT = variants.index("Timestamp"), variants.index("Date"), variants.index("Optional")
+    nxt = [e for e in oblig.events(E, r"Iterator>::next$|Iter.*::next$|Iterator::next$") if e.layer == 0]
+    norm = [e for e in oblig.events(E, r"TimeParser::normalize_json_value$") if e.layer == 0]
+    if not oblig.need_anchor(r, nxt, "iteration over schema.fields") or \
+            not oblig.need_anchor(r, norm, "TimeParser::normalize_json_value"):
+        return out
+    it = nxt[0]
+    base = sym.describe(E.var(norm[0].env, "field_type")[0]) if E.var(norm[0].env, "field_type")[0] is not None else None
+    if base is None:
+        r.status = "inconclusive"
+        r.notes.append("field_type not resolved")
+        return out
+    ft = z3.BitVec(f"disc({base})", 64)
+    inner = [v for n, v in _free(z3.Or([e.reach for e in norm])).items()
+             if n.startswith(f"disc({base}:Optional") ]
+    inn = inner[0] if inner else z3.BitVec(f"disc({base}:Optional.0.0.0)", 64)
+    some_next = z3.BitVec(f"disc({it.site})", 64) == 1
+    present = [z3.BitVec(f"disc({e.site})", 64) == 1 for e in oblig.events(E, r"Map.*::get_mut") if e.layer == 0]
+    notnull = [z3.Not(E.sym(e.site, "bool")) for e in oblig.events(E, r"Value::is_null$") if e.layer == 0]
+    if not present:
+        r.status = "inconclusive"
+        r.notes.append("anchor not found: Map::get_mut on the payload object")
+        return out
+
+    def kind_is_datetime(v):
+        if isinstance(v, sym.Agg):
+            return z3.BoolVal(v.tag.endswith("DateTime"))
+        if isinstance(v, sym.Phi):
+            return z3.Or([z3.And(c, kind_is_datetime(x)) for c, x in v.alts])
+        return None
+
+    r.nontrivial = True
+    cases = [("datetime", ft == TS, True), ("date", ft == DT, False),
+             ("datetime | null", z3.And(ft == OPT, inn == TS), True), ("date | null", z3.And(ft == OPT, inn == DT), False)]
+    for label, cond, want_dt in cases:
+        handled = []
+        for e in norm:
+            k = kind_is_datetime(e.args[1]) if len(e.args) > 1 else None
+            if k is None:
+                r.status = "inconclusive"
+                r.notes.append("TimeKind argument not resolved")
+                return out
+            handled.append(z3.And(e.reach, k if want_dt else z3.Not(k)))
+        res, model = q.check(it.reach, some_next, cond, *present, *notnull, z3.Not(z3.Or(handled)), domain=E.domain)
+        r.queries += 1
+        if res == z3.sat:
+            r.status = "violated"
+            r.witness = {"what": f"a present, non-null value of a `{label}` field is not handed to TimeParser::normalize_json_value "
+                                 f"with kind {'DateTime' if want_dt else 'Date'}: an unparseable time in such a field is accepted and stored as it came",
+                         "span": f"{it.span[0]}:{it.span[1]}" if it.span else None, "call": "PayloadTimeNormalizer::normalize",
+                         "path": [], "model": {"field type": label}}
+            return out
+        if res != z3.unsat:
+            r.status = "inconclusive"
+            r.notes.append("solver returned unknown")
+            return out
+    # the error is propagated: every normalize result goes through `?`
+    tries = {sym.describe(e.args[0]) for e in oblig.events(E, r"Try>::branch$") if e.args}
+    for e in norm:
+        if e.site not in tries:
+            r.status = "violated"
+            r.witness = {"what": "the result of TimeParser::normalize_json_value is not propagated with `?`",
+                         "span": f"{e.span[0]}:{e.span[1]}" if e.span else None, "call": e.func[:100], "path": [], "model": {}}
+            return out
+    return out
+
+
+def _free(t):
+    seen, out, work = {}, {}, [t]
+    while work:
+        x = work.pop()
+        if x.get_id() in seen:
+            continue
+        seen[x.get_id()] = x
+        if z3.is_const(x) and x.decl().kind() == z3.Z3_OP_UNINTERPRETED:
+            out[str(x)] = x
+        work.extend(x.children())
+    return out
+
+
 def obligations(ctx):
     out = []
     out += type_summary(ctx)
     out += validate(ctx)
     out += store_gate(ctx)
     out += pick(schemaspec.define_paths(ctx), [("B-4", "async"), ("B-4b", "sync")])
+    out += time_normalisation(ctx)
     return out
